@@ -242,7 +242,9 @@ func NaturalLiteral(n *uni.Node) (string, bool) {
 	return "", false
 }
 
-var wrongLits = []string{"", "abc", "true", "1", "0", "-1", "1.5", "256", "99999999999999999999", "1e400", "0x10", "0b11", "1_000", "T", "nope", "/a", "/usr/bin"}
+var wrongLits = []string{"", "abc", "true", "1", "0", "-1", "1.5", "256", "99999999999999999999", "1e400", "0x10", "0b11", "1_000", "T", "nope", "/a", "/usr/bin",
+	// strings some other standard parser would read: durations, quantities, dates
+	"5s", "1m", "1h15m", "100ms", "1k", "10%", "2006-01-02", "1,000", "-", "null"}
 var regexPool = []string{".*", "^a", "b$", "[a-c]+", "^$", "(", "[", "a|b", `\d+`, "(?i)A", "^/", ".",
 	// invalid patterns whose quoted form is much longer than the pattern (error-message paths)
 	strings.Repeat("\xff", 24), "(?!x)" + strings.Repeat(`\.`, 30), `\1` + strings.Repeat(`\\`, 34), strings.Repeat("\x00", 20) + "(",
